@@ -496,10 +496,54 @@ def clause_order_sweep(ctx):
     ctx.count('clause_order_sweep', n)
 
 
+# --- round-9 hardening: a comment in every gap, and a comment INSTEAD of every token -------------------------------------------------------------------------
+# comments are grouped, aligned, folded into lists and then removed again by strip_comments before the layout filters walk the tree: a pass that lets a comment
+# take the place of a list item (`f(a, b, -- c\n)`) leaves, once the comment is stripped, a list that ends in a bare comma — which only a LATER filter dereferences
+COMMENT_BASES = ['select coalesce ( a , b , c ) x , count ( * ) over ( partition by d , e order by f ) from t , u where g in ( 1 , 2 ) order by h , i desc',
+                 'insert into t ( a , b ) values ( 1 , 2 ) , ( 3 , 4 )', 'update t set a = 1 , b = f ( c , d ) where e = 1',
+                 'select case when a then b else c end , d as e from t join u on v = w group by x , y having z > 1 limit 5',
+                 'create table t ( a int , b varchar ( 10 ) , primary key ( a , b ) )']
+COMMENT_OPTS = [{'strip_comments': True, 'reindent': True}, {'strip_comments': True, 'reindent': True, 'indent_columns': True}, {'strip_comments': True, 'reindent_aligned': True},
+                {'strip_comments': True, 'strip_whitespace': True, 'use_space_around_operators': True}, {'reindent': True, 'comma_first': True}, {'reindent_aligned': True},
+                {'strip_comments': True, 'reindent': True, 'comma_first': True, 'wrap_after': 5}, {'strip_whitespace': True}]
+
+
+def comment_gap_texts(ctx):
+    cms = ['-- c\n', '/* c */', '--+ h\n'] if not ctx.quick() else ['-- c\n', '/* c */']
+    for base in COMMENT_BASES:
+        ws = base.split(' ')
+        for i in range(len(ws) + 1):
+            for c in cms:
+                yield ' '.join(ws[:i] + [c] + ws[i:])                 # a comment in the gap
+                if i < len(ws):
+                    yield ' '.join(ws[:i] + [c] + ws[i + 1:])         # a comment instead of the token (a commented-out item, keyword or bracket)
+                    yield ''.join(ws[:i]) + c + ' '.join(ws[i + 1:])  # the same, with everything before it written tight
+
+
+def comment_gap_sweep(ctx):
+    n = 0
+    for t in comment_gap_texts(ctx):
+        n += 1
+        try:
+            stmts = sqlparse.parse(t)
+            ctx.evaluations += 1
+        except SQLParseError:
+            continue
+        except Exception as e:
+            ctx.fail('%s escaped from parse()' % type(e).__name__, t, observed=repr(e)[:160], required='result or SQLParseError')
+            continue
+        if n % 3 == 0:
+            accessors(ctx, t, stmts)
+        for o in (COMMENT_OPTS if not ctx.quick() else COMMENT_OPTS[:4] + [COMMENT_OPTS[4 + n % 4]]):
+            try_format(ctx, t, o, 'comment in every gap / instead of every token')
+    ctx.count('comment_gap_sweep', n)
+
+
 def run(ctx):
     rng = ctx.rng
     junk_sweep(ctx)
     clause_order_sweep(ctx)
+    comment_gap_sweep(ctx)
     # (a) option values
     for k in OPTS:
         for v in POOL:
